@@ -33,15 +33,32 @@ var (
 	fRepoFP  = flag.String("vs.repofp", "", "repo fingerprint")
 )
 
+var exitCode int
+
+// TestMain routes every simulator invocation through TestVerifMain so that worlds have a
+// *testing.T (testing/synctest needs one).
 func TestMain(m *testing.M) {
 	flag.Parse()
 	if *fWorld == "" && *fReplay == "" {
 		os.Exit(m.Run())
 	}
-	os.Exit(run(m))
+	_ = flag.Set("test.run", "^TestVerifMain$")
+	_ = flag.Set("test.timeout", "0")
+	rc := m.Run()
+	if exitCode == 0 && rc != 0 {
+		exitCode = 2
+	}
+	os.Exit(exitCode)
 }
 
-func run(m *testing.M) int {
+func TestVerifMain(t *testing.T) {
+	if *fWorld == "" && *fReplay == "" {
+		t.Skip("simulator entry point; use the -vs.* flags")
+	}
+	exitCode = run(t)
+}
+
+func run(m *testing.T) int {
 	if *fReplay != "" {
 		b, err := os.ReadFile(*fReplay)
 		if err != nil {
